@@ -183,6 +183,7 @@ class C12(Prop):
         "src/pylife/stress/collective/load_histogram.py",
     ]
     LEAN_MODULES = ["Proofs.C12"]
+    PARALLEL = 8          # impl_lines / oracle are sharded over forked processes by core.pmap
     THEOREMS = [
         "PylifeVerif.C12.transform_conserves_potential",
         "PylifeVerif.C12.goodman_arrives_at_target",
@@ -227,7 +228,7 @@ class C12(Prop):
     def __init__(self):
         self.stats = {"cyc_cases": 0, "mat_cases": 0, "cycles": 0, "by_diagram": {}, "targets": {"-inf": 0, "gt1": 0, "le0": 0, "0..1": 0},
                       "border_cycles": 0, "neginf_cycles": 0, "beyond1_cycles": 0, "two_goal_cases": 0, "guard_skipped": 0,
-                      "mat_layouts": {}, "mat_classes_max": 0, "oracle_checks": 0}
+                      "mat_layouts": {}, "mat_classes_total": 0, "oracle_checks": 0}
         self.exhaustive = False
 
     # ------------------------------------------------------------ generators
@@ -431,7 +432,7 @@ class C12(Prop):
         res = ser.meanstress_transform.fkm_goodman(pd.Series({"M": p[0], "M2": p[1]}), case["goal"]).to_pandas()
         per_class = res.groupby(level="range", sort=False, observed=True).sum() if case.get("extra") else res
         per_class = per_class.sort_index(level="range") if case.get("extra") else per_class
-        s["mat_classes_max"] = max(s["mat_classes_max"], len(per_class))
+        s["mat_classes_total"] += len(per_class)
         return [" ".join([str(len(per_class))] + [f2h(v) for v in per_class.to_numpy()])]
 
     def nontrivial(self, case, model_out):
